@@ -43,3 +43,57 @@ func fixZeroStar(c *FmtCase) {
 func TestC04Diff(t *testing.T) {
 	rapidCheck(t, "C04Diff", func(rt *rapid.T) interface{} { return genC04(rt) })
 }
+
+// TestC04Num focuses the same differential on the formatting of numeric
+// leaves (scratch-buffer arithmetic in the integer, rune and float
+// renderers): every numeric verb x flags x widths and precisions up to a
+// few hundred x operands at the edges of the code-point and integer ranges.
+var c04NumInts = []int64{0, 1, -1, 7, 10, 65, 127, 128, 255, 0xe9, 0x2039, 0x203a, 0x4e16, 0xD7FF, 0xD800, 0xDFFF, 0xE000, 0xFFFD, 0xFFFF, 0x10000, 0x1F600, 0x1F9FF,
+	0x10FFFF, 0x110000, 1 << 31, -(1 << 31), 1<<63 - 1, -1 << 63, 1234567890123456789}
+var c04NumWP = []string{"", "", "", "0", "1", "2", "5", "8", "20", "59", "60", "61", "64", "65", "100", "127", "128", "129", "300", "1000"}
+
+func TestC04Num(t *testing.T) {
+	rapidCheck(t, "C04Diff", func(rt *rapid.T) interface{} {
+		c := &FmtCase{Route: "Sprintf"}
+		n := rapid.IntRange(1, 2).Draw(rt, "n")
+		for i := 0; i < n; i++ {
+			d := &Directive{}
+			for _, f := range "+-# 0" {
+				if rapid.IntRange(0, 3).Draw(rt, "flag") == 0 {
+					d.Flags += string(f)
+				}
+			}
+			if stringsContains(d.Flags, "0") && stringsContains(d.Flags, "-") {
+				d.Flags = stringsReplaceAll(d.Flags, "0", "")
+			}
+			d.Width = c04NumWP[rapid.IntRange(0, len(c04NumWP)-1).Draw(rt, "w")]
+			if d.Width == "0" {
+				d.Width = ""
+			}
+			if p := c04NumWP[rapid.IntRange(0, len(c04NumWP)-1).Draw(rt, "p")]; p != "" {
+				d.Prec = "." + p
+			}
+			verbs := "dboOxXcqUeEfFgGvtdxUq"
+			d.Verb = B(string(verbs[rapid.IntRange(0, len(verbs)-1).Draw(rt, "verb")]))
+			c.Segs = append(c.Segs, Seg{Dir: d}, Seg{Lit: B("|")})
+			var v *Val
+			switch rapid.IntRange(0, 9).Draw(rt, "kind") {
+			case 0, 1, 2, 3:
+				v = &Val{K: pick(rt, "ik", []string{"int", "int64", "int32", "uint", "uint64", "uint32", "nint", "uint8", "int8", "uintptr"}),
+					I: c04NumInts[rapid.IntRange(0, len(c04NumInts)-1).Draw(rt, "iv")]}
+			case 4, 5, 6:
+				v = &Val{K: pick(rt, "fk", []string{"f64", "f32", "nfloat", "c128", "c64"}),
+					F: pick(rt, "fv", append([]string{"1e300", "1e-300", "123456789.123456789", "0.000001", "1e100", "-1e-100", "9007199254740993"}, floatPool...)),
+					I: int64(rapid.IntRange(-3, 3).Draw(rt, "im"))}
+			case 7:
+				v = &Val{K: "bool", I: int64(rapid.IntRange(0, 1).Draw(rt, "b"))}
+			case 8:
+				v = &Val{K: "intslice", Sub: []*Val{{K: "int", I: c04NumInts[rapid.IntRange(0, len(c04NumInts)-1).Draw(rt, "iv2")]}, {K: "int", I: 0x1F600}}}
+			default:
+				v = &Val{K: pick(rt, "sk", []string{"str", "bytes"}), S: genText(rt, "s", 3)}
+			}
+			c.Args = append(c.Args, v)
+		}
+		return c
+	})
+}
